@@ -171,7 +171,7 @@ func (S *sidesInfo) anchors() {
 			S.fns = append(S.fns, fn)
 		}
 	}
-	sort.Slice(S.fns, func(i, j int) bool { return S.fns[i].Pos() < S.fns[j].Pos() })
+	sort.Slice(S.fns, func(i, j int) bool { return ir.PosLess(S.fns[i].Pos(), S.fns[j].Pos()) })
 
 	// field-sided structs
 	for _, n := range []string{"Diff", "DiffCursor"} {
